@@ -736,7 +736,7 @@ impl<'a> Gen<'a> {
             };
             if self.p.rich_choice_text && !start.is_empty() && self.t.chance(1, 5) {
                 start.push(Inline::Text(" ".into()));
-                start.extend(self.choice_inline(sc));
+                start.extend(self.choice_inline(sc, true));
             }
             if self.p.rich_choice_text && !conds.is_empty() && self.t.chance(1, 3) {
                 conds.push(self.bool_expr(sc, 1));
@@ -748,7 +748,7 @@ impl<'a> Gen<'a> {
                 }
                 if self.p.rich_choice_text && self.t.chance(1, 5) {
                     v.push(Inline::Text(" ".into()));
-                    v.extend(self.choice_inline(sc));
+                    v.extend(self.choice_inline(sc, false));
                 }
                 Some(v)
             } else {
@@ -761,7 +761,8 @@ impl<'a> Gen<'a> {
             };
             if self.p.rich_choice_text && !end.is_empty() && self.t.chance(1, 5) {
                 end.push(Inline::Text(" ".into()));
-                end.extend(self.choice_inline(sc));
+                let no_bracket = bracket.is_none();
+                end.extend(self.choice_inline(sc, no_bracket));
             }
             let mut tags = vec![];
             if self.t.chance(1, 8) {
@@ -872,8 +873,19 @@ impl<'a> Gen<'a> {
     }
 
     /// inline logic inside choice text: a conditional, a sequence, or a printed value
-    fn choice_inline(&mut self, sc: &Scope) -> Vec<Inline> {
-        match self.t.pick(8) {
+    /// `in_start`: the piece lands in the text that is shown on the choice AND on the chosen
+    /// line; a sequence there meets a listed known finding, so it is produced rarely
+    fn choice_inline(&mut self, sc: &Scope, in_start: bool) -> Vec<Inline> {
+        let k = if in_start {
+            match self.t.pick(16) {
+                0 => 1,
+                x if x < 8 => 0,
+                _ => 7,
+            }
+        } else {
+            self.t.pick(8)
+        };
+        match k {
             0 => {
                 let c = self.bool_expr(sc, 1);
                 let a = vec![Inline::Text(self.words(1, 2))];
